@@ -607,6 +607,10 @@ def run(ctx, ck):
                   'asserts `not segments` before touching the geometry (%d paths)' % npaths if bad is None else bad)
             n += 1
     ck.floor('transformation methods', n, 6)
+    # a rotation / transformation matrix built in a loop starts from a fresh matrix in every iteration
+    ck.rule('R-FRESH.loop-scratch', 'an array bound before a loop is not partly overwritten per iteration and read whole inside the loop')
+    from ..rules import check_loop_scratch
+    ck.floor('functions with loops in the geometry modules', check_loop_scratch(ctx, ck, 'R-FRESH.loop-scratch'), 20)
     # transformations act in sort-key order (shared with C05)
     ck.rule('R-ORDER.main', 'all rotations and translations are applied in one sequence sorted by their sort key')
     from ._mainorder import check_transform_order
